@@ -163,7 +163,9 @@ def rule_b2(ctx, pl: Pipeline) -> None:
                     ctx.instance("C06-B2", "%s: id->index map %s built by enumerating %s, applied to %s" % (f.name, mname, built_on, unparse(cont)), s.where(), ok=ok)
                     if not ok:
                         ctx.finding("C06-B2", "%s:id-map-list-mismatch" % f.qualname.split("synrbl.", 1)[-1], s.where(), "the id->index map %s was built on %s but indexes %s" % (mname, built_on, unparse(cont)))
-    ctx.require(n_pos >= 1 and n_map >= 2, "write-back sites changed shape (positional=%d, through maps=%d)" % (n_pos, n_map))
+    if not (n_pos >= 1 and n_map >= 2):
+        # a write-back that goes neither through the positional id nor through an id->index map
+        ctx.finding("C06-B2", "pipeline:write-back-shape", "synrbl/balancing.py:1", "row write-backs changed shape (by positional id: %d, through id->index maps: %d; 2 and 2 on the reference tree): some stage attaches results to rows by list position" % (n_pos, n_map))
 
 
 def _map_built_on(f: Func, mname: str) -> Optional[str]:
@@ -378,6 +380,71 @@ def _lazy_constant(f: Func, assign: ast.AST, target: ast.Attribute) -> bool:
     return not (names_in(assign.value) & params)
 
 
+def _lossy_constructs(kf: Func) -> List[str]:
+    out = []
+    for n in own_nodes(kf.node):
+        if isinstance(n, (ast.ListComp, ast.GeneratorExp, ast.SetComp, ast.DictComp)) and any(g.ifs for g in n.generators):
+            out.append("filtering comprehension %s" % unparse(n)[:60])
+        if isinstance(n, ast.Delete):
+            out.append(unparse(n)[:40])
+        if isinstance(n, ast.Call):
+            name = unparse(n.func).split(".")[-1]
+            if name in ("pop", "popitem", "round", "lower", "upper", "strip", "abs", "int", "discard"):
+                out.append("%s(...)" % name)
+        if isinstance(n, ast.Subscript) and isinstance(n.slice, ast.Slice):
+            out.append("slice %s" % unparse(n)[:30])
+    return out
+
+
+def rule_b6(ctx, scope: Set[str]) -> None:
+    """Results shared between rows through a lookup table keyed by a key
+    function: the key must not drop information."""
+    ctx.rule("C06-B6", "computations shared between rows through a keyed table use a lossless key", 0)
+    prog = ctx.prog
+    for q in sorted(scope):
+        f = prog.functions.get(q)
+        if f is None or not q.startswith("synrbl."):
+            continue
+        key_calls: Dict[str, List[ast.Call]] = {}
+        for c in calls(f):
+            tgt = ctx.res.resolve_callee(c, f)
+            if not (tgt and tgt[0] == "func" and tgt[1] in prog.functions):
+                continue
+            par = getattr(c, "_parent", None)
+            role = None
+            if isinstance(par, ast.Subscript) and par.slice is c:
+                role = "store" if isinstance(par.ctx, ast.Store) else "load"
+            elif isinstance(par, ast.Call) and isinstance(par.func, ast.Attribute) and par.func.attr in ("setdefault", "get") and par.args and par.args[0] is c:
+                role = "store" if par.func.attr == "setdefault" else "load"
+            elif isinstance(par, ast.Compare) and par.left is c and isinstance(par.ops[0], (ast.In, ast.NotIn)):
+                role = "load"
+            if role:
+                key_calls.setdefault(tgt[1], []).append((role, c))
+        for kq, uses in key_calls.items():
+            roles = {r for r, _ in uses}
+            if roles != {"store", "load"}:
+                continue
+            kf = prog.functions[kq]
+            lossy = _lossy_constructs(kf)
+            ctx.instance("C06-B6", "%s shares results through a table keyed by %s (lossy constructs: %s)" % (q.split("synrbl.", 1)[-1], kf.name, lossy or "none"), f.loc(uses[0][1]), ok=not lossy)
+            if lossy:
+                ctx.finding(
+                    "C06-B6",
+                    "%s:shared-by-key:%s" % (q.split("synrbl.", 1)[-1], kf.name),
+                    f.loc(uses[0][1]),
+                    "rows are grouped by %s(), which drops information (%s), and the result computed for one row of a group is reused for the others: a row's result depends on which rows share its batch" % (kf.name, "; ".join(lossy[:2])),
+                )
+    # detector fixture (expected count on the tree is zero)
+    import textwrap
+
+    fx = ast.parse(textwrap.dedent("""
+    def key(d):
+        return tuple(sorted((k, v) for k, v in d.items() if k != 'Q'))
+    """))
+    fxf = Func(qualname="fixture.key", node=fx.body[0], module=next(iter(prog.modules.values())))
+    ctx.require(bool(_lossy_constructs(fxf)), "lossy-key detector fixture did not fire")
+
+
 def rule_b5(ctx, pl: Pipeline) -> None:
     ctx.rule("C06-B5", "statistics are int counts written by exactly one stage call (additive over batches)", 7)
     writers, key_site, _ = c18.stat_writers(ctx, pl)
@@ -415,3 +482,4 @@ def check(ctx) -> None:
     rule_b3(ctx, pl)
     rule_b4(ctx, reach)
     rule_b5(ctx, pl)
+    rule_b6(ctx, reach)
